@@ -13,6 +13,7 @@ import (
 	"io"
 
 	"cuelabs.dev/go/oci/ociregistry"
+	"cuelabs.dev/go/oci/ociregistry/ocidebug"
 	"cuelabs.dev/go/oci/ociregistry/ocimem"
 	"github.com/opencontainers/go-digest"
 	ocispec "github.com/opencontainers/image-spec/specs-go/v1"
@@ -136,7 +137,12 @@ func VerifC03_OneHop() {
 		OmitLinkHeaderFromResponses:  verifBool("omitLink"),
 		DisableSinglePostUpload:      verifBool("noSinglePost"),
 	}
-	c, _ := vsStack(regS, opts)
+	// optionally the logging wrapper sits between the server and the registry
+	var backend ociregistry.Interface = regS
+	if verifBool("withDebugWrapper") {
+		backend = ocidebug.New(regS, func(string, ...any) {})
+	}
+	c, _ := vsStack(backend, opts)
 	// calls=1: one call from the prepared state; calls=2 (thorough): every two-call
 	// history (the second call's choices are named repo2, digest2, tag2, method2)
 	calls := verifParam("calls", 1)
